@@ -50,6 +50,10 @@ func runC02wiring(t *testing.T, run *mc.Run) int {
 				before, _ := r.w.events()
 				vsleep(idle) // the session is silent; the loop's cleanup runs all the while
 				r.offerLine(auditgen.Simple("USER_CMD", 1700000023, 3003, "7", "4242", "success").Recs[0].Line + "\n")
+				// (an action of the session that mentions the kernel's unset session: it signals a daemon)
+				for _, rec := range auditgen.Aux("OBJ_PID", 1700000023, 3033, "7", "4242", "yes").Recs {
+					r.offerLine(rec.Line + "\n")
+				}
 				r.offerLine(auditgen.Simple("USER_END", 1700000024, 3004, "7", "4242", "success").Recs[0].Line + "\n")
 				r.offerLine(auditgen.Simple("CRED_DISP", 1700000025, 3005, "7", "4242", "success").Recs[0].Line + "\n")
 				vsleep(30 * time.Second)
@@ -70,8 +74,8 @@ func runC02wiring(t *testing.T, run *mc.Run) int {
 					return c
 				}
 				b, a := count(before), count(evs)
-				if msg == "" && (b != 3 || a != 6) {
-					msg = fmt.Sprintf("%d events of the session were emitted before it fell silent (want 3) and %d in all after it continued and ended %v later (want 6: every record up to and including the credential disposal)", b, a, idle)
+				if msg == "" && (b != 3 || a != 7) {
+					msg = fmt.Sprintf("%d events of the session were emitted before it fell silent (want 3) and %d in all after it continued and ended %v later (want 7: every event up to and including the credential disposal)", b, a, idle)
 				}
 			})
 			if len(samples) < 4 {
@@ -84,7 +88,7 @@ func runC02wiring(t *testing.T, run *mc.Run) int {
 		}
 	}
 	cov := mc.Coverage{Level: "exploration", Evaluations: n, Distinct: n, Exhaustive: true, Samples: samples,
-		Rule:  "the real Auditd.Read in a synctest bubble (virtual clock, its periodic cleanup running): a session correlated with its login (login first / LOGIN record first), silent for 25 h / 8 days (thorough: also 3 h, 32 days, 100 days), then three more records ending with the credential disposal; oracle: 3 events before the silence, 6 in all, each with the login's identity. distinct_nontrivial = cells",
+		Rule:  "the real Auditd.Read in a synctest bubble (virtual clock, its periodic cleanup running): a session correlated with its login (login first / LOGIN record first), silent for 25 h / 8 days (thorough: also 3 h, 32 days, 100 days), then four more events (one of them a kill(2) whose OBJ_PID record names the kernel's unset session) ending with the credential disposal; oracle: 3 events before the silence, 7 in all, each with the login's identity. distinct_nontrivial = cells",
 		Extra: map[string]any{"cells": n}}
 	return run.Finish(cov)
 }
